@@ -109,12 +109,11 @@ func refDecode(kind int, b []byte) refID {
 
 var (
 	parityNS = bytes.Repeat([]byte{0xFF}, 29)
-	tailNS   = append(bytes.Repeat([]byte{0xFF}, 1), append(make([]byte, 27), 0xFE)...)
+	// tail padding = version 0xFF, id = 27 bytes 0xFF followed by 0xFE
+	tailNS = append(bytes.Repeat([]byte{0xFF}, 28), 0xFE)
 )
 
 func init() {
-	// tail padding = version 0xFF, id = 27 zero bytes followed by 0xFE
-	tailNS = append([]byte{0xFF}, append(bytes.Repeat([]byte{0x00}, 27), 0xFE)...)
 	if !bytes.Equal(tailNS, libshare.TailPaddingNamespace.Bytes()) || !bytes.Equal(parityNS, libshare.ParitySharesNamespace.Bytes()) {
 		panic("harness: reserved namespace constants changed")
 	}
@@ -268,7 +267,8 @@ func verifyAsGetter(id refID, resp response, w *world) (verr error, equal bool) 
 		}
 		for r := 0; r < w.S.N; r++ {
 			for c := 0; c < w.S.N; c++ {
-				if !bytes.Equal(got.GetCell(uint(r), uint(c)), w.S.Cell(r, c).ToBytes()) {
+				cell := w.S.Cell(r, c)
+				if !bytes.Equal(got.GetCell(uint(r), uint(c)), cell.ToBytes()) {
 					return nil, false
 				}
 			}
@@ -295,7 +295,8 @@ func verifyAsGetter(id refID, resp response, w *world) (verr error, equal bool) 
 		if err := s.Verify(roots, id.row, id.col); err != nil {
 			return err, false
 		}
-		return nil, bytes.Equal(s.Share.ToBytes(), w.S.Cell(id.row, id.col).ToBytes())
+		cell := w.S.Cell(id.row, id.col)
+		return nil, bytes.Equal(s.Share.ToBytes(), cell.ToBytes())
 	case kNd:
 		nd := resp.(*shwap.NamespaceData)
 		ns, err := libshare.NewNamespaceFromBytes(id.ns)
